@@ -1019,7 +1019,32 @@ func (f *Flow) World(val func(atom ast.Expr) (truth bool, known bool)) func(b *c
 				return false, false
 			}
 		}
-		return val(e)
+		v, k := val(e)
+		if k {
+			return v, k
+		}
+		// named-boolean idiom: `x := <cond>` defined once, operands untouched between definition and use
+		if id, ok := e.(*ast.Ident); ok && f.Body != nil {
+			if o, ok := f.Info.Uses[id].(*types.Var); ok && !o.IsField() && posIn(f.Body, o.Pos()) {
+				if def, n := localDef(f.Info, f.Body, o); n == 1 && def != nil && def.Pos() < id.Pos() {
+					if tv, ok := f.Info.Types[def]; ok && tv.Value == nil && isBoolType(tv.Type) {
+						stable := true
+						ast.Inspect(def, func(x ast.Node) bool {
+							if di, ok := x.(*ast.Ident); ok {
+								if dv, ok := f.Info.Uses[di].(*types.Var); ok && !dv.IsField() && assignedBetween(f.Info, f.Body, dv, def.End(), id.Pos()) {
+									stable = false
+								}
+							}
+							return true
+						})
+						if stable {
+							return eval(def)
+						}
+					}
+				}
+			}
+		}
+		return false, false
 	}
 	return func(b *cfgBlock, i int) bool {
 		cond, isCase := f.Cond(b)
@@ -1057,4 +1082,40 @@ func assignsSame(info *types.Info, n ast.Node, obj types.Object, wantNil, isBool
 		return true
 	})
 	return same
+}
+
+
+func isBoolType(t types.Type) bool {
+	b, ok := t.Underlying().(*types.Basic)
+	return ok && b.Info()&types.IsBoolean != 0
+}
+
+// assignedBetween: obj is (re)assigned by a statement located textually in (from, to).
+func assignedBetween(info *types.Info, body ast.Node, obj types.Object, from, to token.Pos) bool {
+	found := false
+	ast.Inspect(body, func(n ast.Node) bool {
+		if n == nil || found {
+			return false
+		}
+		switch s := n.(type) {
+		case *ast.AssignStmt:
+			if s.Pos() > from && s.Pos() < to {
+				for _, l := range s.Lhs {
+					if objOf(info, l) == obj {
+						found = true
+					}
+				}
+			}
+		case *ast.IncDecStmt:
+			if s.Pos() > from && s.Pos() < to && objOf(info, s.X) == obj {
+				found = true
+			}
+		case *ast.RangeStmt:
+			if s.Pos() > from && s.Pos() < to && ((s.Key != nil && objOf(info, s.Key) == obj) || (s.Value != nil && objOf(info, s.Value) == obj)) {
+				found = true
+			}
+		}
+		return true
+	})
+	return found
 }
